@@ -12,6 +12,33 @@ LEVEL = "proof"
 LEAN_TARGETS = ["SyneTune.Props.C05", "SyneTune.Props.C13Sync", "SyneTune.Props.C20Sync"]
 DRIVER = "SyneTune/Drivers/Sync.lean"
 THEOREMS = [
+    # C05
+    "SyneTune.C05.run_total",
+    "SyneTune.C05.distinct",
+    "SyneTune.C05.cycle",
+    "SyneTune.C05.barrier",
+    "SyneTune.C05.top",
+    "SyneTune.C05.top_list_best",
+    "SyneTune.C05.never_blocks",
+    "SyneTune.C05.suggest_total",
+    "SyneTune.C05.primary",
+    "SyneTune.C05.resume_is_top",
+    # C13 (synchronous Hyperband part)
+    "SyneTune.C13Sync.sync_total",
+    "SyneTune.C13Sync.sync_no_wait",
+    "SyneTune.C13Sync.no_orphan_slot",
+    "SyneTune.C13Sync.occupied_slots_stable",
+    "SyneTune.C13Sync.no_resume_failed_partial",
+    "SyneTune.C13Sync.witness_resumes_failed",
+    "SyneTune.C13Sync.no_resume_failed_counterexample",
+    # C20 (synchronous Hyperband part)
+    "SyneTune.C20Sync.removable_not_promoted",
+    "SyneTune.C20Sync.not_promoted_stable",
+    "SyneTune.C20Sync.not_promoted_never_resumed",
+    "SyneTune.C20Sync.resume_has_ckpt_sync",
+    # the induction itself
+    "SyneTune.Sync.run_inv",
+    "SyneTune.Sync.init_inv",
 ]
 TRUSTED = [
     "hand-written model lean/SyneTune/Model/{SyncBracket,SyncManager,SyncScheduler}.lean tied to /repo by the sync correspondence stream",
